@@ -16,6 +16,7 @@ def urToJson (f : UMap → Json) : UR → Json
   | .typeError => Json.str "TypeError"
   | .indexError => Json.str "IndexError"
   | .notImpl => Json.str "NotImplementedError"
+  | .kfuel => Json.str "fuel"
   | .fuel => Json.str "fuel"
 
 def mapToJson (m : UMap) : Json :=
